@@ -121,6 +121,38 @@ Proof.
 Qed.
 End PR.
 
+(* ---------------- shifting the output index by 2 shifts the coefficient window by 1 ---------------- *)
+Section PRshift.
+Variables (L : Z) (d0 d1 g0 g1 : Z -> R).
+Lemma Pk_shift ka kb i d t : Pk L d0 d1 g0 g1 ka kb (i + 2*t) d = Pk L d0 d1 g0 g1 (ka - t) (kb - t) i d.
+Proof.
+  unfold Pk.
+  set (F := fun k => zx L g0 (i + 2*t + (L-2) - 2*k) *r zx L d0 (d + (L-1) - (i + 2*t + (L-2) - 2*k))
+                  +r zx L g1 (i + 2*t + (L-2) - 2*k) *r zx L d1 (d + (L-1) - (i + 2*t + (L-2) - 2*k))).
+  transitivity (sumZ (ka - t + t) (kb - t + t) F). { f_equal; lia. }
+  rewrite <- (sumZ_shift Op (ka - t) (kb - t) t F).
+  apply sumZ_ext. intros k Hk. unfold F. replace (i + 2*t + (L-2) - 2*(k + t)) with (i + (L-2) - 2*k) by lia. reflexivity.
+Qed.
+(* filter-only perfect-reconstruction condition: the kernel of both output parities is the unit impulse *)
+Definition PRcond : Prop := forall p d, 0 <= p < 2 -> 1 - L <= d < L -> Pk L d0 d1 g0 g1 (-1) L p d = delta Op d.
+(* it gives the kernel condition at every output index and every window that contains the live taps *)
+Lemma PRcond_at ka kb i d : 0 < L -> PRcond -> 1 - L <= d < L ->
+  (forall k, ~(ka <= k < kb) -> ~(0 <= i + (L-2) - 2*k < L)) -> ka <= kb ->
+  Pk L d0 d1 g0 g1 ka kb i d = delta Op d.
+Proof.
+  intros HL HPR Hd Hwin Hab.
+  set (p := i mod 2). set (t := i / 2).
+  assert (Hi: i = p + 2*t) by (unfold p, t; lia).
+  assert (Hp: 0 <= p < 2) by (unfold p; lia).
+  rewrite <- (HPR p d Hp Hd).
+  (* widen both windows to a common one *)
+  set (lo := Z.min ka (t - 1)). set (hi := Z.max kb (t + L)).
+  rewrite <- (Pk_window L d0 d1 g0 g1 ka kb lo hi i d) by (try (unfold lo, hi; lia); intros k Hk Hn; apply Hwin; exact Hn).
+  rewrite Hi. rewrite Pk_shift.
+  apply (Pk_window L d0 d1 g0 g1 (-1) L (lo - t) (hi - t) p d); unfold lo, hi; lia.
+Qed.
+End PRshift.
+
 (* ---------------- periodization: the code's single fold is the circular synthesis when L-2 <= N ---------------- *)
 Definition T2 (L:Z) (g0 g1 lo hi:Z->R) (k c:Z) : R := lo k *r zx L g0 c +r hi k *r zx L g1 c.
 
